@@ -169,6 +169,65 @@ func isolationScenario(ctor string, secondEarly bool, bound int) *vsched.Scenari
 	}
 }
 
+// reconfigureScenario: a subscription is routed by the handlers that were configured when Subscribe was
+// called; re-configuring the MonadIO afterwards (as Cor.YieldFromIO does with SubscribeOn(nil)) while the
+// first subscription's effect is still running does not re-route it.
+func reconfigureScenario(toNil bool, bound int) *vsched.Scenario {
+	fam := "reconfigure-in-flight"
+	return &vsched.Scenario{
+		Name:  fmt.Sprintf("reconfigure-in-flight/SubscribeOn(nil)=%v", toNil),
+		Bound: bound,
+		Body: func() {
+			m := fpgo.MonadIONewGenerics(func() int {
+				vsched.Event("effect", vsched.ThreadName())
+				vsched.Yield()
+				vsched.Yield()
+				return 5
+			})
+			h1 := fpgo.Handler.NewByCh(make(chan func(), 1))
+			h2 := fpgo.Handler.NewByCh(make(chan func(), 1))
+			h3 := fpgo.Handler.NewByCh(make(chan func(), 1))
+			h1.Post(func() { vsched.Event("h1-thread", vsched.ThreadName()) })
+			h2.Post(func() { vsched.Event("h2-thread", vsched.ThreadName()) })
+			m.ObserveOn(h1).SubscribeOn(h2)
+			m.Subscribe(fpgo.Subscription[int]{OnNext: func(v int) { vsched.Event("onnext", v, vsched.ThreadName()) }})
+			if toNil {
+				m.SubscribeOn(nil)
+			} else {
+				m.SubscribeOn(h3)
+			}
+			vsched.Event("reconfigured")
+		},
+		Check: func(r *vsched.Result) []vsched.Failure {
+			fs := e1.Basic("C11", fam, r, nil)
+			if len(r.Panics) > 0 {
+				return fs
+			}
+			h1t, h2t := "", ""
+			for _, e := range r.Events {
+				switch e.Kind {
+				case "h1-thread":
+					h1t = e.Args[0].(string)
+				case "h2-thread":
+					h2t = e.Args[0].(string)
+				}
+			}
+			for _, e := range r.Events {
+				if e.Kind == "effect" && e.Args[0].(string) != h1t {
+					fs = append(fs, e1.Fail("C11|"+fam+"|effect-goroutine", "the effect ran on %s, the observe handler configured at Subscribe time is %s", e.Args[0], h1t))
+				}
+				if e.Kind == "onnext" && e.Args[1].(string) != h2t {
+					fs = append(fs, e1.Fail("C11|"+fam+"|onnext-goroutine", "OnNext of a subscription made with SubscribeOn(h2) ran on %s, not on h2's goroutine %s, after the MonadIO was re-configured while its effect was running", e.Args[1], h2t))
+				}
+			}
+			if e1.Count(r, "onnext") != 1 || e1.Count(r, "effect") != 1 {
+				fs = append(fs, e1.Fail("C11|"+fam+"|onnext-count", "effect ran %d time(s), OnNext %d time(s)", e1.Count(r, "effect"), e1.Count(r, "onnext")))
+			}
+			return fs
+		},
+	}
+}
+
 func scenarios(tier string) []*vsched.Scenario {
 	b := 2
 	if tier == "thorough" {
@@ -184,6 +243,7 @@ func scenarios(tier string) []*vsched.Scenario {
 	for _, c := range []string{"Just(nil)", "Just(7)", "JustGenerics(nil)", "JustGenerics(7)", "New"} {
 		out = append(out, isolationScenario(c, false, 1), isolationScenario(c, true, 1))
 	}
+	out = append(out, reconfigureScenario(true, b), reconfigureScenario(false, b))
 	if tier == "thorough" {
 		out = append(out, handlerScenario(true, true, 3, 1, 2), handlerScenario(false, true, 3, 3, 2))
 	}
